@@ -1,3 +1,4 @@
+import Props.C07Logic
 import Proofs.EngineStruct
 import SynapModel.Api
 /-!
